@@ -152,7 +152,7 @@ def _shrunk(prog, how, pol, cs, oracle):
 
 
 def plan(tier, seed, build, scale):
-    n = int((2000 if tier == "quick" else 26000) * scale)
+    n = int((2000 if tier == "quick" else 90000) * scale)
     per = max(1, n // (10 if tier == "quick" else 40))
     units = []
     a = 0
